@@ -18,12 +18,12 @@ ASSUMPTIONS = ['unitless (valueunit None) spectra stored in m / um / nm / angstr
                'the spectrum\'s integral is that of its piecewise-linear interpolant, evaluated independently (bounds may fall between samples)',
                "Simpson's rule is exercised only with uniformly spaced centres and data, as the property scopes it"]
 PLAN = {'quick': {'gen': 8}, 'thorough': {'gen': 16, 'tests': 1, 'docs': 1}}
-REQUIRED_BUCKETS = ['bin:narrow-line', 'crop:outside-data', 'bin:integer-centres', 'values:small-int', 'bin:zero-spectrum', 'integrate:bright-band-below-bounds', 'wave:integer-dtype', 'unit:m', 'unit:um', 'unit:nm', 'unit:angstrom', 'bin:unit-same', 'bin:unit-differs', 'integrate:trapz', 'integrate:simps', 'bin:trapz', 'bin:simps', 'ends:symmetric', 'ends:inside',
+REQUIRED_BUCKETS = ['bin:spiky', 'bin:narrow-line', 'crop:outside-data', 'bin:integer-centres', 'values:small-int', 'bin:zero-spectrum', 'integrate:bright-band-below-bounds', 'wave:integer-dtype', 'unit:m', 'unit:um', 'unit:nm', 'unit:angstrom', 'bin:unit-same', 'bin:unit-differs', 'integrate:trapz', 'integrate:simps', 'bin:trapz', 'bin:simps', 'ends:symmetric', 'ends:inside',
                     'preserve:True', 'preserve:False', 'grid:nonuniform', 'op:crop', 'op:trim', 'op:pad', 'op:append', 'value:narrow-dtype', 'resample:short-narrow', 'value:signed', 'bin:narrow-float-centres', 'bin:fill-pair', 'wave:narrow-float', 'integrate:wave-narrow-float',
                     'op:resample', 'op:raised', 'history:len>=6']
 REQUIRED_ANCHORS = ['probe:Spectrum.crop', 'probe:Spectrum.trim', 'probe:Spectrum.pad', 'probe:Spectrum.append',
                     'probe:Spectrum.resample', 'anchor:Spectrum.integrate', 'anchor:Spectrum.bin', 'anchor:Spectrum.ends']
-REQUIRED_ORACLES = ['integrate:linear', 'integrate:additive', 'integrate:exact-pl', 'bin:count', 'bin:nonnegative',
+REQUIRED_ORACLES = ['integrate:linear', 'integrate:additive', 'integrate:exact-pl', 'integrate:simps-linear', 'integrate:simps-positive', 'bin:count', 'bin:nonnegative',
                     'bin:exact-linear', 'bin:power', 'invariant', 'retained', 'crop:closed-range', 'trim:first-last']
 
 
@@ -207,6 +207,37 @@ def workload(ctx, lentil):
         sc = abs(a * I1) + abs(b * I2) + 1e-300
         ctx.close('integrate:linear', np.array([I12]), np.array([a * I1 + b * I2]), 1e-10, f'integrate|linear|{method}',
                   'integration is not linear in the values', desc, scale=sc)
+        if method == 'simps' and uni:
+            # Simpson's rule on uniformly sampled data: (a) exact when the data are one straight line, wherever the bounds fall;
+            # (b) every sample enters with a positive weight between 2/3 and 4/3 of its trapezoid weight, so the estimate for
+            # non-negative data lies within that band around the exact integral of the piecewise-linear spectrum
+            L = w[0] if lo is None else max(lo, w[0])
+            H = w[-1] if hi is None else min(hi, w[-1])
+            if H > L:
+                between = lo is not None and not at_samples
+                tag = '|bounds-between-samples' if between else ''
+                pq = rng.uniform(0.1, 2, size=2)
+                vl = pq[0] + pq[1] * (w - w[0]) / (w[-1] - w[0])
+                Il = mk(w, vl).integrate(lo, hi, 'simps')
+                ctx.close('integrate:simps-linear', np.array([Il]), np.array([sm.integral_pl(w, vl, L, H)]), 1e-11,
+                          'integrate|simps|straight-line' + tag, "Simpson's rule is not exact for a straight line on a uniform grid", desc,
+                          scale=float(np.max(vl)) * (H - L))
+                # spiky non-negative data (a line on a dark continuum) next to the smooth kind
+                vs = np.zeros(m)
+                kk = rng.choice(m, int(rng.integers(1, 3)), replace=False)
+                vs[kk] = rng.uniform(0.5, 100, size=len(kk))
+                if i % 3 == 0:
+                    vs[[0, -1][i % 2]] = 100.0
+                for nm_, vv_ in (('smooth', v1 if i % 5 != 2 else None), ('spiky', vs)):
+                    if vv_ is None:
+                        continue
+                    Ip = mk(w, vv_).integrate(lo, hi, 'simps')
+                    ex = sm.integral_pl(w, vv_, L, H)
+                    slack = 1e-9 * float(np.max(vv_)) * (H - L)
+                    ctx.check(bool(2 / 3 * ex - slack <= Ip <= 4 / 3 * ex + slack), 'integrate:simps-positive', f'integrate|simps|outside-positive-weight-band|{nm_}' + tag,
+                              "Simpson's estimate for non-negative uniformly sampled data lies outside [2/3, 4/3] of the exact integral of the "
+                              'piecewise-linear spectrum (a sample entered with a negative or oversized weight)',
+                              dict(desc, got=float(Ip), exact_pl=float(ex), values=nm_, lo=None if lo is None else float(lo), hi=None if hi is None else float(hi)))
         if method == 'trapz':
             # exact for piecewise-linear data over the requested interval (bounds that fall between two samples cut the
             # interval they fall in; beyond the data there is nothing to integrate)
@@ -268,6 +299,14 @@ def workload(ctx, lentil):
         if linear:
             p = rng.uniform(0.1, 2, size=2)
             v = p[0] + p[1] * (w - w[0]) / span
+        elif rng.random() < 0.3:
+            # a line or an edge on a dark continuum (non-negative, far from smooth)
+            v = np.zeros(m)
+            kk = rng.choice(m, int(rng.integers(1, 3)), replace=False)
+            v[kk] = rng.uniform(0.5, 100, size=len(kk))
+            if i % 2:
+                v[[0, -1][(i // 2) % 2]] = 100.0
+            ctx.bucket('bin:spiky')
         else:
             v = rng.uniform(0, 3, size=m)
         # the spectrum is stored in unit u_s, the bin centres are given in unit u_c (waveunit=u_c); the reference below
@@ -287,8 +326,10 @@ def workload(ctx, lentil):
                 Lc, Hc = max(float(np.min(c)), float(w[0])), min(float(np.max(c)), float(w[-1]))
                 tot = sm.integral_pl(w, v, Lc, Hc) if Hc > Lc else 0.0
             else:
-                with probe.quiet():
-                    tot = S(w, v, waveunit=u_c).integrate(np.min(c), np.max(c), method=method)
+                # Simpson's rule has no closed form for bounds between samples: the total is decided below by the band that
+                # positive Simpson weights on a uniform grid imply, around the exact integral of the piecewise-linear spectrum
+                Lc, Hc = max(float(np.min(c)), float(w[0])), min(float(np.max(c)), float(w[-1]))
+                tot = sm.integral_pl(w, v, Lc, Hc) if Hc > Lc else 0.0
             if not np.isfinite(tot) or abs(tot) < 1e-9 * sm.wave_factor('nm', u_c):
                 ctx.skip('bin: zero power inside the centres (0/0)')
                 continue
@@ -314,7 +355,25 @@ def workload(ctx, lentil):
             continue
         ctx.check(bool(np.all(bins >= -1e-12 * (np.max(np.abs(bins)) + 1e-300))), 'bin:nonnegative', f'bin|negative|{method}',
                   'binning a non-negative spectrum gave a negative bin', desc)
-        if preserve:
+        zero_bins = False
+        if preserve and not linear and np.all(bins == 0):
+            # (recorded finding, by mechanism: the bins are built from samples of the spectrum at the bin edges - and centres, for
+            # Simpson's rule - only; a line that lies between all of them leaves every bin empty)
+            mids_ = c[:-1] + np.diff(c) / 2
+            h0_, h1_ = (c[1] - c[0]) / 2, (c[-1] - c[-2]) / 2
+            outer_ = [c[0] - h0_, c[-1] + h1_] if ends == 'symmetric' else [c[0], c[-1]]
+            pts_ = np.concatenate([mids_, outer_] + ([c] + ([[c[0] + h0_ / 2, c[-1] - h1_ / 2]] if ends == 'inside' else []) if method == 'simps' else []))
+            zero_bins = bool(np.all(sm.interp_linear(pts_, w, v, 0.0) == 0))
+        if zero_bins:
+            ctx.close('bin:power', np.array([bins.sum()]), np.array([tot]), 1e-10, 'bin|power|zero-bins|nonzero-integral',
+                      'with power preservation the bins do not sum to the integral of a narrow line over the span of the centres',
+                      desc, scale=abs(tot))
+        elif preserve and method == 'simps':
+            slack = 1e-9 * float(np.max(v)) * span
+            ctx.check(bool(2 / 3 * tot - slack <= bins.sum() <= 4 / 3 * tot + slack), 'bin:power', 'bin|power|simps|outside-positive-weight-band',
+                      "with power preservation the Simpson bins sum to something outside [2/3, 4/3] of the spectrum's exact (piecewise-linear) "
+                      'integral over the span of the centres', dict(desc, got=float(bins.sum()), exact_pl=float(tot)))
+        elif preserve:
             ctx.close('bin:power', np.array([bins.sum()]), np.array([tot]), 1e-10, f'bin|power|{method}',
                       "with power preservation the bins do not sum to the spectrum's integral over the span of the centres",
                       desc, scale=abs(tot))
